@@ -301,9 +301,9 @@ pub fn check(c: &Case7, st: &mut Stats) -> CheckResult {
 pub fn run(ctx: &Ctx, out: &mut Outcome) {
     let t = ctx.tier;
     let max = t.pick(3usize, 8usize);
-    search::<Case7>(ctx, out, "pairs", t.pick(50_000, 500_000), &move || pair_strategy(max), &check);
-    search::<Case7>(ctx, out, "pairs-one-limb", t.pick(30_000, 300_000), &|| pair_strategy(1), &check);
-    search::<Case7>(ctx, out, "branch", t.pick(30_000, 300_000), &branch_strategy, &check);
+    search::<Case7>(ctx, out, "pairs", t.pick(200_000, 1_500_000), &move || pair_strategy(max), &check);
+    search::<Case7>(ctx, out, "pairs-one-limb", t.pick(150_000, 1_000_000), &|| pair_strategy(1), &check);
+    search::<Case7>(ctx, out, "branch", t.pick(150_000, 1_000_000), &branch_strategy, &check);
 }
 
 pub fn replay(_ctx: &Ctx, v: &Value) -> Result<CheckResult, String> {
